@@ -21,6 +21,7 @@ type Features struct {
 	PinTypes                                            bool // every metric gets a write with an operand of concrete type
 	// constructs the reference does not define (used by C04/C23 only, never with R)
 	MixedWrites, StringNumberCompare, NonBoolCond, Unary bool
+	Histograms, HistIncr                                 bool // histogram declarations (no reference semantics in R); ++ on a histogram
 	BoolInArith                                          bool // a comparison used as an integer operand (rejected by the pinned compiler)
 	NoUnaryOnBool                                        bool // with Unary: ~ only on Int operands
 	NoFloatIntoInt                                       bool // with MixedWrites: only Int values into Float metrics
@@ -50,6 +51,7 @@ type capRef struct {
 	Name string
 	Num  int
 	Ty   Ty
+	Ts   bool
 }
 
 // G is the generator state for one program.
@@ -153,10 +155,16 @@ func (g *G) genDecls() {
 		if g.F.Text {
 			kinds = append(kinds, "text")
 		}
+		if g.F.Histograms {
+			kinds = append(kinds, "histogram")
+		}
 		m.Kind = pick(g, "kind", kinds)
 		switch {
 		case m.Kind == "text":
 			m.Ty = TString
+		case m.Kind == "histogram":
+			m.Ty = TFloat
+			m.Buckets = pick(g, "buckets", [][]float64{{1, 2, 4}, {0.5, 10}, {0, 1, 100}})
 		case g.F.Floats && g.chance("float", 30):
 			m.Ty = TFloat
 		default:
@@ -205,6 +213,9 @@ func (g *G) genPattern(forLine bool) *Pattern {
 		if g.F.Consts && len(g.P.Consts) > 0 && i > 0 {
 			kinds = append(kinds, "const")
 		}
+		if g.F.TimeBuiltins {
+			kinds = append(kinds, "ts", "ts")
+		}
 		k := pick(g, "tok", kinds)
 		t := PatTok{Kind: k}
 		switch k {
@@ -245,7 +256,7 @@ func (g *G) pushCaps(p *Pattern) {
 	g.seenPats = append(g.seenPats, p)
 	for _, t := range p.Toks {
 		if t.Num > 0 {
-			g.scope = append(g.scope, capRef{Pat: p.ID, Name: t.Name, Num: t.Num, Ty: tokTy(t.Kind)})
+			g.scope = append(g.scope, capRef{Pat: p.ID, Name: t.Name, Num: t.Num, Ty: tokTy(t.Kind), Ts: t.Kind == "ts"})
 		}
 	}
 	g.patsVis++
@@ -283,7 +294,7 @@ func (g *G) paren(e *Expr) *Expr {
 func (g *G) metricsOf(ty Ty) []*Metric {
 	var out []*Metric
 	for _, m := range g.P.Metrics {
-		if m.Ty == ty {
+		if m.Ty == ty && m.Kind != "histogram" {
 			out = append(out, m)
 		}
 	}
@@ -644,7 +655,14 @@ func (g *G) genBool(d int, matchPat **Pattern) *Expr {
 	case g.F.LogicalOps:
 		op := pick(g, "lop", []string{"&&", "||"})
 		g.class("op-level-1")
-		return g.paren(&Expr{Op: "bin", Ty: TBool, Name: op, Args: []*Expr{g.genBool(d+1, nil), g.genBool(d+1, nil)}})
+		l := g.genBool(d+1, nil)
+		// a capturing match operator on the right of a short-circuit operator: the
+		// block may run without the match having been evaluated
+		r := g.genBool(d+1, matchPat)
+		if matchPat != nil && *matchPat != nil {
+			g.class("capturing-match-behind-short-circuit")
+		}
+		return g.paren(&Expr{Op: "bin", Ty: TBool, Name: op, Args: []*Expr{l, r}})
 	}
 	return g.genCmp(d)
 }
@@ -655,6 +673,14 @@ func (g *G) genWrite(m *Metric) *Stmt {
 	g.used[m.Name] = true
 	g.written[m.Name] = true
 	keys := g.genKeys(m, 1)
+	if m.Kind == "histogram" {
+		g.class("histogram-write")
+		if g.F.HistIncr && g.chance("histincr", 25) {
+			g.class("histogram-increment")
+			return &Stmt{Op: "incr", Metric: m.Name, Keys: keys}
+		}
+		return &Stmt{Op: "assign", Metric: m.Name, Keys: keys, E: g.genFloat(1)}
+	}
 	if g.F.MixedWrites && m.Ty != TString && g.chance("mixedwrite", 12) {
 		g.class("mixed-type-write")
 		if m.Ty == TInt && !g.F.NoFloatIntoInt {
@@ -756,8 +782,19 @@ func (g *G) genBlock(depth, n int, ctx blockCtx) []*Stmt {
 				out = append(out, &Stmt{Op: "exprstmt", E: &Expr{Op: "call", Ty: TInt, Name: "settime", Args: []*Expr{g.genInt(1)}}})
 			} else {
 				g.class("builtin-strptime")
-				lay := pick(g, "layout", []string{"2006-01-02", "15:04:05", "Jan _2 15:04:05", "2006/01/02 15:04:05"})
-				out = append(out, &Stmt{Op: "exprstmt", E: &Expr{Op: "call", Ty: TInt, Name: "strptime", Args: []*Expr{g.genString(1), {Op: "lit", Ty: TString, S: lay}}}})
+				lay := pick(g, "layout", []string{"20060102T15:04", "20060201T15:04", "20060102T15:04", "2006-01-02", "15:04:05"})
+				arg := g.genString(1)
+				var tss []capRef
+				for _, c := range g.scope {
+					if c.Ts && c.Name != "" {
+						tss = append(tss, c)
+					}
+				}
+				if len(tss) > 0 && g.chance("tscap", 85) {
+					arg = g.capExpr(pick(g, "tsc", tss))
+					g.class("strptime-of-captured-timestamp")
+				}
+				out = append(out, &Stmt{Op: "exprstmt", E: &Expr{Op: "call", Ty: TInt, Name: "strptime", Args: []*Expr{arg, {Op: "lit", Ty: TString, S: lay}}}})
 			}
 		case k == 15 && g.F.Stop && g.chance("stop", 40):
 			g.class("stop")
@@ -1066,6 +1103,7 @@ var (
 	poolWord     = []string{"a", "b", "foo", "Foo", "bar", "x1", "0", "12", "abc", "GET"}
 	poolNonspace = []string{"a", "foo", "a-b", "x/y", "1.5", "Foo", "0", "id=7", "ab"}
 	poolAbc      = []string{"a", "abc", "cab", "b", "cc"}
+	poolTs       = []string{"20150724T10:14", "20160102T03:04", "20151345T99:99", "20150102T10:14", "20150102T10:14", "19991231T23:59"}
 )
 
 func (g *G) instTok(t PatTok, consts map[string]*Const) string {
@@ -1084,6 +1122,8 @@ func (g *G) instTok(t PatTok, consts map[string]*Const) string {
 		return pick(g, "vnonspace", poolNonspace)
 	case "abc":
 		return pick(g, "vabc", poolAbc)
+	case "ts":
+		return pick(g, "vts", poolTs)
 	case "const":
 		if c := consts[t.Lit]; c != nil {
 			return c.Inst
